@@ -13,6 +13,14 @@ correspondence : (A) rebuilt kernels fit_candidates (real/complex; binary64 repl
                  hypotheses of updates_keep_product / updates_keep_pattern on every filtered-Jacobi / cg / cgnr
                  instance (each projected update annihilates B_c exactly, lies in the pattern, and the proof-side
                  fold applyUpdates reproduces the model's P).
+                 (E24) incomplete_mat_mult_csr (evolution_strength.h; sorted = its precondition, and unsorted input) and
+                 incomplete_mat_mult_bsr with unsorted block columns vs Model/ExtC10bImm.lean / Model/C10.lean, exactly;
+                 energy_prolongation_smoother(krylov='gmres') (whole loop: Arnoldi with the Frobenius product, Givens
+                 rotations, triangular solve; with and without root nodes) vs Model/ExtC10bGmres.lean run on exact
+                 rationals with 64-bit square roots (`ext_c10b_gmres`), which also decides the hypothesis of
+                 gmres_run_checked on every run (each projected matrix annihilates B_c and lies in the pattern; a theorem for
+                 every input since gmres_run_property) and its conclusion; the proof-side complex Gram-Schmidt C10.cfitAgg (`ext_c10b_p_cfit`) vs
+                 tentative.fit_candidates on every Gaussian-rational instance.
 search         : the property itself on the real code with independent dense NumPy oracles:
                  T^H T = diag(1/0), T B_c = B on aggregated unknowns, zero rows, pattern(T) = AggOp (x) block,
                  number of zero columns = local rank deficiency for fit_candidates; (P - T) B_c = 0 and
@@ -46,11 +54,12 @@ META = {
             'hierarchies built with keep=True and improve_candidates=None.  A case is non-trivial when at least one '
             'aggregate has two or more unknowns (fit / hierarchy cases) or the update pattern has an off-diagonal block '
             '(projection / smoothing cases); distinct = distinct (operation, options, input) tuples',
-    'search_only': ['gmres energy minimisation, complex energy minimisation and the pre-/post-filter selection of the pattern '
+    'search_only': ['complex energy minimisation and the pre-/post-filter selection of the pattern '
                     '(filter_matrix_rows / truncate_rows): judged on the real outputs by independent NumPy oracles ((P - T) B_c = 0, '
                     'supp(P - T) inside Atilde^degree pattern(T) with the filter recomputed independently, identity rows, P B_c = B) '
                     '-- no Lean model of those loops; the Lean side covers them through updates_keep_product / updates_keep_pattern '
-                    '(any coefficients, any number of steps) and the exact models of the kernels the loops are built from',
+                    '(any coefficients, any number of steps) and the exact models of the kernels the loops are built from '
+                    '(real gmres energy minimisation has a model of the whole loop since E24: gmres_run_checked)',
                     'whole hierarchies (smoothed_aggregation_solver, rootnode_solver; keep=True, improve_candidates=None): every '
                     'level judged by the same oracles on the stored AggOp, T, P, B, Cpts',
                     'complex unfiltered / filtered Jacobi and Richardson smoothing: NumPy oracle only (the Lean smoother models run on Rat)',
@@ -58,8 +67,13 @@ META = {
     'partial': ['filter_operator_row_partial (root-node clause "reproduces B on every row whose pattern can support the constraints"): '
                 'proved for rows whose local Gram matrix B_J^H B_J is inverted by BtBinv; rows where the code falls back to a '
                 'pseudo-inverse are not claimed (the search skips them too unless the rank deficiency is exact)',
-                'fit_support / fit_cross_orthogonal / fit_local / fit_reproduces are stated over a linearly ordered field (real '
-                'candidates); the complex kernel (conjugated dot product) is covered by the bit-exact executable model and by the search'],
+                'complex candidates: cfit_support / cfit_cross_orthogonal / cfit_local / cfit_reproduces (conjugated dot product, pairs '
+                'over an ordered field) are about the proof-side loop C10.cfitAgg, which the check compares with the complex kernel on '
+                'every Gaussian-rational instance (`ext_c10b_p_cfit`); the refinement array model = proof-side definition is a theorem '
+                'for the real instance only (fitCandidates_refines)',
+                'gmres_run_property (T\' B_c = T B_c and pattern kept by the executable gmres model on every input on which it returns) '
+                'covers row-scaling preconditioners and block-diagonal ones whose block size is the row block size of the pattern '
+                '(all calls of the check); cg / cgnr models: the same hypotheses are decided per instance (no theorem about energyCG)'],
     'assumptions': ['binary64 rounding is outside the exact models: kernels are compared exactly on dyadic and perfect-square instances '
                     '(every operation is then exact) and fit_candidates is replayed in binary64 bit by bit on generic data; functions '
                     'that invert local matrices (compute_BtBinv, scale_T, block weighting: LAPACK pseudo-inverse) are compared with '
@@ -69,7 +83,13 @@ META = {
                     'approximate_spectral_radius is not modelled: the value the smoother used is recorded from the call, checked '
                     'against the dense spectral radius of the scaled matrix (5% for n <= 12 -- defective eigenvalues converge slowly --, 20% inside hierarchies) and then '
                     'used in the polynomial',
-                    'for the model comparison of filtered Jacobi and cg/cgnr energy smoothing the row patterns are read from the '
+                    'the gmres model runs on exact rationals with square roots of 64 significant bits (every other operation exact); it is '
+                    'compared with tolerance 1e-6 on runs without breakdown, with residual norms outside (1e-12, 1e-4), Arnoldi norms '
+                    'H[i+1,i] >= 1e-6 and a triangular factor with diagonal ratio >= 1e-6',
+                    'incomplete_mat_mult_csr: sorted, duplicate-free indices of A (rows) and B (columns) are the kernel\'s stated '
+                    'precondition and the hypothesis of imm_csr_spec; on unsorted input only model = kernel is compared; '
+                    'incomplete_mat_mult_bsr: block columns of S distinct inside a block row (hypothesis of imm_bsr_spec)',
+                    'for the model comparison of filtered Jacobi and cg/cgnr/gmres energy smoothing the row patterns are read from the '
                     'running code (arguments of satisfy_constraints / compute_BtBinv); the independent oracle recomputes the allowed '
                     'pattern itself',
                     'rows whose local candidate block has singular values between 1e-9 and 1e-2 of the largest are numerically '
@@ -709,9 +729,10 @@ def item_fit_py(ctx, rng, t):
     tolenc = str(fbits(tol)) if mode in ('f', 'cf') else enc_rat(tol)
     line = f'c10_fitpy {mode} {nf} {nc} {K1} {K2} {enc_ints(AggOp.indptr)} {enc_ints(AggOp.indices)} {enc_vals(B, mode)} {tolenc}'
     Td = T.toarray() if sp.issparse(T) else np.asarray(T)
-    twin = mode == 'r'
+    twin = mode in ('r', 'c')
     if twin:
-        line = [line, f'c10_p_fit {nf} {nc} {K1} {K2} {enc_ints(AggOp.indptr)} {enc_ints(AggOp.indices)} {enc_vals(B, mode)} {tolenc}']
+        pop = 'c10_p_fit' if mode == 'r' else 'ext_c10b_p_cfit'      # GS.mgs / CGS.cmgs per aggregate (proof-side definitions)
+        line = [line, f'{pop} {nf} {nc} {K1} {K2} {enc_ints(AggOp.indptr)} {enc_ints(AggOp.indices)} {enc_vals(B, mode)} {tolenc}']
     # ---- search: the property on the real output (independent of the model)
     if not np.array_equal(Bin, B):
         ctx.violation('fit_candidates modified its argument B', case)
@@ -745,8 +766,8 @@ def item_fit_py(ctx, rng, t):
         if reply2 is not None:
             # the definition the theorems of Props/C10.lean are about (GS.mgs per aggregate, masked candidates)
             p2 = reply2.split(';')
-            ctx.feat('fitpy:proof-side-twin')
-            if len(p2) != 3 or not (same_exact(dec_vals(p2[0], 'r')[0], Td, 'r') and same_exact(dec_vals(p2[1], 'r')[0], R, 'r')):
+            ctx.feat('fitpy:proof-side-twin' + (':complex' if mode == 'c' else ''))
+            if len(p2) != 3 or not (same_exact(dec_vals(p2[0], mode)[0], Td, mode) and same_exact(dec_vals(p2[1], mode)[0], R, mode)):
                 ctx.corr('fit_candidates (proof-side fitAgg)', case, reply2[:400], {'T': cj(Td)[:16], 'R': cj(R)[:12]})
     return {'line': line, 'judge': judge, 'key': _key('fitpy', str(line)), 'nontrivial': fit_nontrivial(case),
             'sample': {'op': 'fit_candidates', 'nf': nf, 'nc': nc, 'K1': K1, 'K2': K2, 'kind': case['kind'], 'complex': cplx}}
@@ -1990,16 +2011,238 @@ def part_a(ctx, N):
     return items
 
 
+
+# ------------------------------------------------------------------------------------------------
+# extension E24: incomplete_mat_mult_csr, unsorted BSR patterns, gmres energy minimisation vs the
+# exact model of the whole loop (Model/ExtC10bGmres.lean)
+# ------------------------------------------------------------------------------------------------
+
+def rand_cs_pattern(rng, nmajor, nminor, shuffle=False):
+    """compressed pattern (indptr, indices) int32 without duplicates, sorted unless `shuffle`"""
+    dens = float(rng.choice([0.3, 0.6, 0.9]))
+    ip, ix = [0], []
+    for _ in range(nmajor):
+        cols = [j for j in range(nminor) if rng.random() < dens]
+        if shuffle:
+            cols = [int(c) for c in rng.permutation(cols)] if cols else []
+        ix += cols
+        ip.append(len(ix))
+    return i32(ip), i32(ix)
+
+
+def item_imm_csr_kernel(ctx, rng, t):
+    """incomplete_mat_mult_csr (evolution_strength.h) vs Model/ExtC10bImm.lean; on sorted input (the kernel's
+    precondition, hypothesis of incompleteMatMultCsr_spec) the result must be (A B) on the pattern of S"""
+    from pyamg import amg_core
+    cplx = t % 3 == 1
+    unsorted = t % 6 == 5           # precondition violated: model and kernel must still agree (same merge)
+    n, kk, mc = int(rng.integers(1, 6)), int(rng.integers(1, 6)), int(rng.integers(1, 6))
+    ap, aj = rand_cs_pattern(rng, n, kk, shuffle=unsorted)            # A: n x kk, CSR
+    bp, bj = rand_cs_pattern(rng, mc, kk, shuffle=unsorted)           # B: kk x mc, CSC (column pointers)
+    sp_, sj = rand_cs_pattern(rng, n, mc, shuffle=(t % 4 == 3))       # S: n x mc, CSR; its order does not matter
+    ax = rand_small(rng, len(aj), cplx, den=2)
+    bx = rand_small(rng, len(bj), cplx, den=4)
+    sx0 = rand_small(rng, len(sj), cplx)                               # overwritten whatever it holds
+    out = sx0.copy()
+    amg_core.incomplete_mat_mult_csr(ap, aj, ax, bp, bj, bx, sp_, sj, out, n)
+    mode = 'c' if cplx else 'r'
+    line = (f'ext_c10b_imm_csr {mode} {enc_ints(ap)} {enc_ints(aj)} {enc_vals(ax, mode)} {enc_ints(bp)} {enc_ints(bj)} '
+            f'{enc_vals(bx, mode)} {enc_ints(sp_)} {enc_ints(sj)} {enc_vals(sx0, mode)} {n}')
+    case = {'op': 'incomplete_mat_mult_csr', 'complex': cplx, 'dims': [n, kk, mc], 'sorted': not unsorted, 'ap': ap.tolist(),
+            'aj': aj.tolist(), 'ax': cj(ax), 'bp': bp.tolist(), 'bj': bj.tolist(), 'bx': cj(bx), 'sp': sp_.tolist(),
+            'sj': sj.tolist(), 'sx': cj(sx0)}
+
+    def judge(reply):
+        ctx.feat('immcsr:' + ('unsorted' if unsorted else 'sorted') + (':complex' if cplx else ':real'))
+        v, f = dec_vals(reply, mode) if reply != 'bad-op' else ([], np.zeros(0))
+        if same_exact(v, out, mode):
+            ctx.feat('bit_exact')
+        else:
+            ctx.corr('incomplete_mat_mult_csr', case, reply[:400], cj(out)[:16])
+        if not unsorted:
+            Ad = sp.csr_array((ax, aj, ap), shape=(n, kk)).toarray()
+            Bd = sp.csc_array((bx, bj, bp), shape=(kk, mc)).toarray()
+            ref = Ad @ Bd
+            for i in range(n):
+                for q in range(sp_[i], sp_[i + 1]):
+                    if abs(out[q] - ref[i, sj[q]]) > 1e-12:
+                        ctx.violation(f'incomplete_mat_mult_csr: S[{i},{int(sj[q])}] = {out[q]} but (A B)[{i},{int(sj[q])}] = {ref[i, sj[q]]} '
+                                      '(sorted indices, no duplicates)', case)
+                        return
+    return {'line': line, 'judge': judge, 'key': _key('immcsr', line), 'nontrivial': len(sj) > 0 and len(aj) > 0 and len(bj) > 0,
+            'sample': None}
+
+
+def item_imm_bsr_unsorted(ctx, rng, t):
+    """incomplete_mat_mult_bsr with unsorted block columns (allowed by the kernel; hypothesis of
+    incompleteMatMultBsr_spec is only that the block columns of S are distinct inside a block row)"""
+    from pyamg import amg_core
+    cplx = t % 3 == 1
+    ra, ca, cb = (1, 1, 1) if t % 2 == 0 else (int(rng.choice([1, 2, 3])), int(rng.choice([1, 2])), int(rng.choice([1, 2, 3])))
+    nbr, nk, nbc = int(rng.integers(1, 5)), int(rng.integers(1, 5)), int(rng.integers(1, 5))
+    ap, aj = rand_cs_pattern(rng, nbr, nk, shuffle=True)
+    bp, bj = rand_cs_pattern(rng, nk, nbc, shuffle=True)
+    sp_, sj = rand_cs_pattern(rng, nbr, nbc, shuffle=True)
+    ax = rand_small(rng, len(aj) * ra * ca, cplx)
+    bx = rand_small(rng, len(bj) * ca * cb, cplx)
+    sx = rand_small(rng, len(sj) * ra * cb, cplx) if t % 4 != 0 else np.zeros(len(sj) * ra * cb, dtype=complex if cplx else float)
+    out = sx.copy()
+    amg_core.incomplete_mat_mult_bsr(ap, aj, ax, bp, bj, bx, sp_, sj, out, nbr, nbc, ra, ca, cb)
+    mode = 'c' if cplx else 'r'
+    line = (f'c10_imm {mode} {enc_ints(ap)} {enc_ints(aj)} {enc_vals(ax, mode)} {enc_ints(bp)} {enc_ints(bj)} {enc_vals(bx, mode)} '
+            f'{enc_ints(sp_)} {enc_ints(sj)} {enc_vals(sx, mode)} {nbr} {nbc} {ra} {ca} {cb}')
+    case = {'op': 'incomplete_mat_mult_bsr', 'complex': cplx, 'unsorted': True, 'dims': [nbr, nk, nbc, ra, ca, cb], 'ap': ap.tolist(),
+            'aj': aj.tolist(), 'ax': cj(ax), 'bp': bp.tolist(), 'bj': bj.tolist(), 'bx': cj(bx), 'sp': sp_.tolist(), 'sj': sj.tolist(),
+            'sx': cj(sx)}
+
+    def judge(reply):
+        ctx.feat('immk:unsorted:' + ('1x1' if (ra, ca, cb) == (1, 1, 1) else 'blocks'))
+        v, f = dec_vals(reply, mode) if reply != 'bad-op' else ([], np.zeros(0))
+        if same_exact(v, out, mode):
+            ctx.feat('bit_exact')
+        else:
+            ctx.corr('incomplete_mat_mult_bsr (unsorted)', case, reply[:400], cj(out)[:16])
+        Ad = bsr_blocks_dense(ap, aj, ax, nbr, nk, ra, ca)
+        Bd = bsr_blocks_dense(bp, bj, bx, nk, nbc, ca, cb)
+        Sd = bsr_blocks_dense(sp_, sj, sx, nbr, nbc, ra, cb)
+        ref = (Sd + Ad @ Bd) * pattern_mask(sp_, sj, nbr, nbc, ra, cb)
+        got = bsr_blocks_dense(sp_, sj, out, nbr, nbc, ra, cb)
+        if not np.allclose(got, ref, atol=1e-9):
+            ctx.violation('incomplete_mat_mult_bsr (unsorted block columns) does not accumulate A*B on the stored blocks of S: '
+                          f'expected {ref.tolist()} got {got.tolist()}', case)
+    return {'line': line, 'judge': judge, 'key': _key('immk-unsorted', line),
+            'nontrivial': len(sj) > 0 and len(aj) > 0 and len(bj) > 0, 'sample': None}
+
+
+def item_gmres_model(ctx, rng, t):
+    """gmres energy minimisation vs the exact Lean model of the whole loop (Arnoldi with the Frobenius product,
+    Givens rotations, triangular solve; real data, rows whose local Gram matrices are safely invertible).  The model
+    runs on exact rationals with 64-bit square roots; it also decides, on the instance, the hypothesis of
+    gmres_run_constrained (every projected matrix of the run annihilates B_c and lies in the pattern) and its
+    conclusion (the updates y_j V_j are constrained, the proof-side fold reproduces T, T B_c is unchanged)."""
+    from pyamg.aggregation.smooth import energy_prolongation_smoother
+    from pyamg.aggregation.tentative import fit_candidates
+    from pyamg.util.utils import scale_T, get_Cpt_params
+    root = t % 4 == 3
+    degree = int(rng.choice([0, 1, 1, 1, 2, 2]))
+    # exact rationals roughly triple in length with every GMRES step: 4 steps only now and then in the thorough tier
+    maxiter = int(rng.choice([1, 2, 2, 3] if ctx.quick else [1, 2, 2, 3, 3, 3, 3, 4]))
+    weighting = ['local', 'diagonal', 'block'][int(rng.integers(3))]
+    bs = int(rng.choice([1, 1, 2]))
+    nn = int(rng.integers(4, 9 if bs == 1 else 5))
+    M = rand_matrix(rng, nn, bs, sym=(t % 3 == 0))
+    S = to_sparse(M, bs)
+    agg, nc = chain_partition(rng, nn)
+    if root:
+        roots = np.array([int(rng.choice([i for i in range(nn) if agg[i] == j])) for j in range(nc)], dtype=np.int32)
+        B = rand_candidates(rng, agg, nc, bs, bs, False, 'generic')
+        K2 = bs
+    else:
+        roots = None
+        K2 = int(rng.choice([1, 1, 2])) if bs == 1 else int(rng.choice([1, bs]))
+        B = rand_candidates(rng, agg, nc, bs, K2, False, 'generic')
+    C, Cn = strength_pattern(rng, M, bs, sym=(t % 3 == 0))
+    Cv = C.toarray()
+    if root:
+        for i in range(nn):
+            if agg[i] < 0:
+                Cv[i, :] = 0
+                Cv[:, i] = 0
+                Cv[i, i] = 1.0
+        C = gen.int32csr(sp.csr_array(Cv))
+    AggOp = aggop_of(agg, nc)
+    T0, Bc = fit_candidates(AggOp, B)
+    cpts = []
+    par = (False, {})
+    if root:
+        p = get_Cpt_params(S, roots, AggOp, T0)
+        T0 = scale_T(T0, p['P_I'], p['I_F'])
+        Bc = p['P_I'].T @ B
+        cpts = [int(c) for c in p['Cpts']]
+        par = (True, p)
+    case = {'op': 'gmres_model', 'root': root, 'krylov': 'gmres', 'degree': degree, 'maxiter': maxiter, 'weighting': weighting, 'bs': bs,
+            'nn': nn, 'K2': K2, 'M': cj(M), 'Cvals': Cv.ravel().tolist(), 'agg': [int(a) for a in agg], 'nc': nc,
+            'roots': None if roots is None else roots.tolist(), 'B': cj(B)}
+    Tin = T0.copy()
+    try:
+        with Tap('compute_BtBinv') as tap, quiet():
+            P = energy_prolongation_smoother(S, T0, C, Bc, B if root else None, par, krylov='gmres', maxiter=maxiter, degree=degree,
+                                             weighting=weighting)
+    except Exception as e:       # noqa: BLE001
+        ctx.violation(f'energy_prolongation_smoother(gmres, degree={degree}, maxiter={maxiter}, {weighting}) raised {type(e).__name__}: {e}', case)
+        return None
+    if not tap.calls:
+        return None
+    pat = tap.calls[0][0][1]
+    if pat.format != 'bsr' or tuple(pat.blocksize) != (bs, K2):
+        ctx.corr('energy smoother (gmres)', case, 'n/a', f'pattern format {pat.format} blocksize {getattr(pat, "blocksize", None)}')
+        return None
+    st = rows_status(Bc, pat.indptr, pat.indices, nn, K2)
+    if any(x not in ('ok', 'empty') for x in st):
+        ctx.feat('gmres-model:ill-posed-rows-skipped')
+        return None
+    Td, Pd = Tin.toarray(), P.toarray()
+    n = M.shape[0]
+    eff = 'diagonal' if (weighting == 'block' and bs == 1) else weighting
+    wt, aux = {'diagonal': 0, 'local': 1, 'block': 3}[eff], np.abs(M).sum(1)
+    line = (f'ext_c10b_gmres {wt} {bs} {bs} {K2} {Bc.shape[1]} {pat_enc(pat.indptr, pat.indices, nn)} {n} {Td.shape[1]} '
+            f'{enc_rats(M.ravel())} {enc_rats(aux)} {enc_rats(Td.ravel())} {enc_rats(Bc.ravel())} {maxiter} {enc_rat(1e-8)} {enc_ints(cpts)}')
+
+    def judge(reply):
+        ctx.feat(f'gmres-model:{"root" if root else "plain"}')
+        parts = reply.split(';')
+        if reply == 'singular' or len(parts) != 6:
+            ctx.feat('gmres-model:singular-skipped')
+            return
+        flags = parts[1].split(',')
+        if any(f in flags for f in ('PROJS-UNCONSTRAINED', 'UNCONSTRAINED', 'NOFOLD', 'NOPRODUCT')):
+            ctx.corr('energy smoother gmres (model invariants)', case, parts[1], 'n/a',
+                     'the model\'s own run does not satisfy the hypothesis / conclusion of gmres_run_constrained')
+            return
+        if flags[0] != 'ok' or flags[1] != 'regular' or flags[2] != 'generic':
+            ctx.feat('gmres-model:breakdown-or-singular-skipped')
+            return
+        normrs = [float(x) for x in dec_list(parts[2], dec_rat)]
+        if normrs[:1] == [0.0]:
+            ctx.feat('gmres-model:zero-initial-residual')      # nothing to do: the model and the code return T
+        hns = [float(x) for x in dec_list(parts[4], dec_rat)]
+        diag = [abs(float(x)) for x in dec_list(parts[5], dec_rat)]
+        if normrs[:1] != [0.0] and (any(x < 1e-4 for x in normrs) or any(x < 1e-6 for x in hns)
+                                    or (diag and min(diag) < 1e-6 * max(diag + [1.0]))):
+            ctx.near_skipped += 1          # a residual norm near tol / a near breakdown: the float run may take another branch
+            return
+        v, f = dec_vals(parts[0], 'r')
+        ctx.feat(f'gmres-model:updates:{parts[3]}')
+        if not close(f, Pd, 1e-6):
+            ctx.corr('energy smoother gmres', case, parts[0][:300], cj(Pd)[:16])
+    return {'line': line, 'judge': judge, 'key': _key('gmres-model', line), 'nontrivial': True,
+            'sample': {'op': 'gmres energy smoother vs exact model', 'degree': degree, 'maxiter': maxiter, 'weighting': weighting,
+                       'root': root, 'n': n}}
+
+
+def part_e24(ctx, N):
+    rng = ctx.np_rng.spawn(1)[0]          # derived from VERIF_SEED, leaves the stream of the other parts as it was
+    items = []
+    for t in range(N):
+        items.append(safe(ctx, item_imm_csr_kernel, rng, t))
+        if t % 2 == 1:
+            items.append(safe(ctx, item_imm_bsr_unsorted, rng, t // 2))
+        if t % 3 == 0:
+            items.append(safe(ctx, item_gmres_model, rng, t // 3))
+    return items
+
+
 def run(ctx):
     items = part_a(ctx, ctx.scale(200, 10000))
     items += part_b(ctx, ctx.scale(150, 7500))
+    items += part_e24(ctx, ctx.scale(60, 600))
     run_items(ctx, items)
     part_c(ctx, ctx.scale(150, 7500), ctx.scale(160, 8000), ctx.scale(42, 2100))
 
 
 def search(ctx):
     part_c(ctx, 600, 400, 140)
-    run_items(ctx, part_b(ctx, 300))
+    run_items(ctx, part_b(ctx, 300) + part_e24(ctx, 200))
 
 
 def _rebuild_smoother_inputs(case):
@@ -2087,6 +2330,41 @@ def replay_filter(ctx, case):
             break
 
 
+def replay_imm_csr(ctx, case):
+    from pyamg import amg_core
+    cplx = case['complex']
+    n, kk, mc = case['dims']
+    ap, aj, bp, bj, sp_, sj = (i32(case[k]) for k in ('ap', 'aj', 'bp', 'bj', 'sp', 'sj'))
+    ax, bx, out = uncj(case['ax'], cplx), uncj(case['bx'], cplx), uncj(case['sx'], cplx)
+    amg_core.incomplete_mat_mult_csr(ap, aj, ax, bp, bj, bx, sp_, sj, out, n)
+    if not case.get('sorted', True):
+        print('unsorted input: outside the precondition of the kernel, only the model comparison applies')
+        return
+    ref = sp.csr_array((ax, aj, ap), shape=(n, kk)).toarray() @ sp.csc_array((bx, bj, bp), shape=(kk, mc)).toarray()
+    for i in range(n):
+        for q in range(sp_[i], sp_[i + 1]):
+            if abs(out[q] - ref[i, sj[q]]) > 1e-12:
+                ctx.violation(f'incomplete_mat_mult_csr: S[{i},{int(sj[q])}] = {out[q]} but (A B)[{i},{int(sj[q])}] = {ref[i, sj[q]]} '
+                              '(sorted indices, no duplicates)', case)
+                return
+
+
+def replay_imm_bsr(ctx, case):
+    from pyamg import amg_core
+    cplx = case['complex']
+    nbr, nk, nbc, ra, ca, cb = case['dims']
+    ap, aj, bp, bj, sp_, sj = (i32(case[k]) for k in ('ap', 'aj', 'bp', 'bj', 'sp', 'sj'))
+    ax, bx, sx = uncj(case['ax'], cplx), uncj(case['bx'], cplx), uncj(case['sx'], cplx)
+    out = sx.copy()
+    amg_core.incomplete_mat_mult_bsr(ap, aj, ax, bp, bj, bx, sp_, sj, out, nbr, nbc, ra, ca, cb)
+    ref = (bsr_blocks_dense(sp_, sj, sx, nbr, nbc, ra, cb) + bsr_blocks_dense(ap, aj, ax, nbr, nk, ra, ca) @
+           bsr_blocks_dense(bp, bj, bx, nk, nbc, ca, cb)) * pattern_mask(sp_, sj, nbr, nbc, ra, cb)
+    got = bsr_blocks_dense(sp_, sj, out, nbr, nbc, ra, cb)
+    if not np.allclose(got, ref, atol=1e-9):
+        ctx.violation('incomplete_mat_mult_bsr does not accumulate A*B on the stored blocks of S: expected '
+                      f'{ref.tolist()} got {got.tolist()}', case)
+
+
 def replay(ctx, data):
     case = data['case']
     op = case.get('op')
@@ -2109,7 +2387,11 @@ def replay(ctx, data):
         replay_jacobi_filtered(ctx, case)
     elif op == 'filter_operator':
         replay_filter(ctx, case)
-    elif op == 'energy_model':
+    elif op == 'incomplete_mat_mult_csr':
+        replay_imm_csr(ctx, case)
+    elif op == 'incomplete_mat_mult_bsr':
+        replay_imm_bsr(ctx, case)
+    elif op in ('energy_model', 'gmres_model'):
         c2 = dict(case, complex=False, prefilter=None, postfilter=None)
         if case['root']:
             judge_rootnode(ctx, dict(c2, nd=case['bs']))
